@@ -17,7 +17,8 @@ From Coq Require Import String.
 From Coq Require Import ZArith SpecFloat.
 Require Import OV.Base.Bytes OV.Base.Py OV.Base.PyInt OV.Base.Str OV.Base.Regex OV.Base.PyFloat.
 Require Import OV.Gen.C10_Units OV.Model.C10.
-Require Import OV.Proofs.C10_Regex OV.Proofs.C10_Form OV.Proofs.C10_Float OV.Proofs.C10.
+Require Import OV.Gen.C10_Code.
+Require Import OV.Proofs.C10_Regex OV.Proofs.C10_Form OV.Proofs.C10_Float OV.Proofs.C10 OV.Proofs.C10_Qemu OV.Proofs.C10_Equiv.
 Open Scope Z_scope.
 
 (* the unit systems are exactly IEC, SI and mixed *)
@@ -98,3 +99,52 @@ Theorem C10_ceil_is_ceiling : forall s m e z, ceil_to_Z (S754_finite s m e) = Ok
   else (z - 1) * 2 ^ (- e) < v <= z * 2 ^ (- e).
 Proof. exact ceil_to_Z_spec. Qed.
 Print Assumptions C10_ceil_is_ceiling.
+
+(* integer magnitude n, factor F = base^exponent (1 without prefix) with at most 53 significant
+   bits, n * F (/ 8 for bit units) an integer a below 2^53: the result is exactly the float of
+   value a (with the sign), and return_int returns exactly a.
+   exact_hyps (Proofs/C10.v) is the conjunction of: (u, prefixes) a known system; sg empty, + or -;
+   ds non-empty ASCII digits of value n; pre empty or a prefix of the system; un in {b, bit, B};
+   nl empty or a newline; F = 1 or spec_base^spec_exp; repr53b F; n * F = a * (8 | 1); a < 2^53. *)
+Theorem C10_exact_when_representable : forall u prefixes sg ds pre un nl n F a,
+  exact_hyps u prefixes sg ds pre un nl n F a ->
+  string_to_bytes (sg ++ ds ++ pre ++ un ++ nl) u false = Ok (NFloat (float_of_small_int (beq sg [45%N]) a)) /\
+  string_to_bytes (sg ++ ds ++ pre ++ un ++ nl) u true = Ok (NInt (if beq sg [45%N] then Zneg a else Zpos a)).
+Proof. exact exact_when_representable. Qed.
+Print Assumptions C10_exact_when_representable.
+
+(* float_of_small_int neg a is the float Python's float(int) gives for the integer: exact *)
+Theorem C10_float_of_small_int_is_float_of_int : forall (neg : bool) a, Zpos a < 2 ^ 53 ->
+  float_of_Z (if neg then Zneg a else Zpos a) = Some (float_of_small_int neg a).
+Proof. exact float_of_small_int_spec. Qed.
+Print Assumptions C10_float_of_small_int_is_float_of_int.
+
+(* QemuImgInfo._extract_bytes: whenever SIZE_RE finds a "(N bytes)" figure (group 3), the result is
+   int(N) — whatever the magnitude and the unit say *)
+Theorem C10_bytes_figure_precedence : forall details a e g,
+  re_search size_re details = Some (a, e, g) -> gget g 3%nat <> None ->
+  exists ds, group_text details g 4 = Some ds /\ digits ds = true /\ ds <> [] /\
+             extract_bytes details = py_int_lim ds.
+Proof. exact figure_wins. Qed.
+Print Assumptions C10_bytes_figure_precedence.
+
+(* otherwise, with a unit: string_to_bytes(magnitude + unit, 'IEC', return_int=True), one-letter units completed with B *)
+Theorem C10_qemu_same_arithmetic : forall details a e g g1 c r,
+  re_search size_re details = Some (a, e, g) -> group_text details g 1 = Some g1 -> has_e g1 = false ->
+  truthy (group_text details g 3) = false -> group_text details g 2 = Some (c :: r) ->
+  extract_bytes details =
+  match string_to_bytes (g1 ++ (if (zlen (c :: r) =? 1)%Z && negb (beq (c :: r) (lit "B")) then (c :: r) ++ lit "B" else c :: r))
+                        (lit "IEC") true with
+  | Ok (NInt z) => Ok z
+  | Ok (NFloat _) => Exn OtherError
+  | Exn ex => Exn ex
+  end.
+Proof. exact unit_uses_string_to_bytes. Qed.
+Print Assumptions C10_qemu_same_arithmetic.
+
+(* the model is the code: the statement-by-statement translation of the source of string_to_bytes
+   (Gen/C10_Code.v, regenerated on every run) is extensionally the model the theorems are about *)
+Theorem C10_translation_equiv : forall text unit_system return_int,
+  gen_string_to_bytes text unit_system return_int = string_to_bytes text unit_system return_int.
+Proof. exact gen_string_to_bytes_equiv. Qed.
+Print Assumptions C10_translation_equiv.
